@@ -97,6 +97,13 @@ EnvelopeOpen(kek, dekKt, ct, ad) ==
              ELSE LET c == DEKConfig(dekKt, d[2])
                   IN IF c.kt = "INVALID" THEN EnvFail ELSE AEADOpen(c, f.payload, ad)
 
+\* A KmsEnvelopeAeadKey inside a keyset (aead.New): output-prefix of that keyset key || envelope.
+\* prefix is the 5-byte output prefix of the envelope key, or empty (RAW, the template default).
+EnvelopeKeySeal(prefix, kek, kekNonce, dekKt, dek, dekNonce, pt, ad) ==
+  prefix \o EnvelopeSeal(kek, kekNonce, dekKt, dek, dekNonce, pt, ad)
+EnvelopeKeyOpen(prefix, kek, dekKt, ct, ad) ==
+  IF ~IsPrefixOf(prefix, ct) THEN EnvFail ELSE EnvelopeOpen(kek, dekKt, Drop(ct, Len(prefix)), ad)
+
 \* length of an envelope ciphertext given the lengths of its parts
 EnvelopeLen(encDEKLen, dekCfg, ptLen) == 4 + encDEKLen + AEADCiphertextLen(dekCfg, ptLen)
 ================================================================================
